@@ -11,7 +11,7 @@ func init() {
 		ID: "C04",
 		Rule: "rapid histories of the world machine weighted to slashes (any consensus key of the pool, infraction heights 0..30 blocks back, powers 1..10^6, factors 0..1 with boundary values, repeated slash ids) over operators with several assets, delegators and pending undelegations started before/at/after the infraction height; " +
 			"non-trivial = a slash with non-zero proportion hit an operator that had both an at-risk and a not-at-risk pending undelegation; distinct = hash of the (kind, outcome) sequence",
-		Gen:        GenOpts{Weights: w, HostilePct: 2, ExtremePct: 0, Anchor: true, Tempos: []int{2, 6, 15}, CapBits: 50, ClampBits: 50, Focus: true},
+		Gen:        GenOpts{Weights: w, HostilePct: 2, ExtremePct: 0, Anchor: true, Tempos: []int{2, 6, 15}, CapBits: 50, ClampBits: 40, Focus: true},
 		MinSteps:   25,
 		MaxSteps:   80,
 		Config:     worldConfig,
